@@ -104,8 +104,10 @@ func (x *Exec) execInstr(fr *Frame, st *State, in ssa.Instruction) {
 		if name := debugName(i); name != "" {
 			if v, ok := st.regs[i.X]; ok {
 				st.names[name] = v
+				x.nameTypes[name] = i.X.Type()
 			} else if c, ok := i.X.(*ssa.Const); ok {
 				st.names[name] = x.constVal(c)
+				x.nameTypes[name] = i.X.Type()
 			}
 		}
 	case *ssa.Alloc:
@@ -381,6 +383,20 @@ func (x *Exec) toInt(t *Term, T types.Type) *Term {
 func (x *Exec) intEq(a, b *Term) *Term { return x.tt.Eq(a, b) }
 
 func (x *Exec) strLen(s *Term) *Term {
+	if !x.strTheory {
+		if lit, ok := x.strLits[s.Op]; ok && s.Kind == KSym {
+			return x.GoInt(int64(len(lit)))
+		}
+		l := x.tt.UF("strlen$", "Int", s)
+		if !x.addrSeen[-l.id-2000000] {
+			x.addrSeen[-l.id-2000000] = true
+			x.addFactRaw(x.tt.And(x.tt.Ge(l, x.tt.IntLit(0)), x.tt.Le(l, x.tt.IntLit(1<<40))))
+		}
+		if x.bv {
+			return x.tt.App("(_ int2bv 64)", bvSort(64), l)
+		}
+		return l
+	}
 	l := x.tt.App("str.len", "Int", s)
 	if s.Kind == KLit {
 		// constant string: count bytes
@@ -467,7 +483,7 @@ func (x *Exec) binop(fr *Frame, st *State, op token.Token, av, bv Value, at, bt,
 		case token.OR, token.LOR:
 			return tt.Or(a, b)
 		}
-	case "String":
+	case "String", "Str":
 		switch op {
 		case token.EQL:
 			return tt.Eq(a, b)
@@ -475,6 +491,21 @@ func (x *Exec) binop(fr *Frame, st *State, op token.Token, av, bv Value, at, bt,
 			return tt.Not(tt.Eq(a, b))
 		case token.ADD:
 			return x.strConcat(a, b)
+		}
+		if !x.strTheory {
+			lt := func(p, q *Term) *Term { return tt.UF("strlt$", "Bool", p, q) }
+			switch op {
+			case token.LSS:
+				return lt(a, b)
+			case token.LEQ:
+				return tt.Or(lt(a, b), tt.Eq(a, b))
+			case token.GTR:
+				return lt(b, a)
+			case token.GEQ:
+				return tt.Or(lt(b, a), tt.Eq(a, b))
+			}
+		}
+		switch op {
 		case token.LSS:
 			return tt.App("str.<", "Bool", a, b)
 		case token.LEQ:
@@ -512,13 +543,29 @@ func (x *Exec) ifaceEq(a, b *Term) *Term {
 }
 
 func (x *Exec) strConcat(a, b *Term) *Term {
-	if a.Kind == KLit && a.Op == `""` {
+	e := x.StrLit("")
+	if a == e {
 		return b
 	}
-	if b.Kind == KLit && b.Op == `""` {
+	if b == e {
 		return a
 	}
-	return x.tt.App("str.++", "String", a, b)
+	if !x.strTheory {
+		return x.tt.UF("strcat$", "Str", a, b)
+	}
+	return x.tt.App("str.++", x.SS(), a, b)
+}
+
+// string theory operations with uninterpreted fall-backs
+func (x *Exec) strOp(op string, sort string, args ...*Term) *Term {
+	if !x.strTheory {
+		name := strings.ReplaceAll(op, ".", "_") + "$"
+		if sort == "String" {
+			sort = "Str"
+		}
+		return x.tt.UF(name, sort, args...)
+	}
+	return x.tt.App(op, sort, args...)
 }
 
 func (x *Exec) floatBinop(op token.Token, a, b *Term) Value {
@@ -805,7 +852,7 @@ func (x *Exec) execSlice(fr *Frame, st *State, i *ssa.Slice) {
 			x.setReg(st, i, x.fresh("substr", i.Type()))
 			return
 		}
-		x.setReg(st, i, tt.App("str.substr", "String", xv, lo, tt.Sub(hi, lo)))
+		x.setReg(st, i, x.strOp("str.substr", "String", xv, lo, tt.Sub(hi, lo)))
 	case *types.Slice:
 		ln, cp := x.sLen(xv), x.sCap(xv)
 		if lo == nil {
@@ -968,7 +1015,7 @@ func (x *Exec) unbox(st *State, v *Term, T types.Type) Value {
 	case kFloat32:
 		return tt.Sel("v-g", "vf32", sF32, v)
 	case kString:
-		return tt.Sel("v-s", "vstr", "String", v)
+		return tt.Sel("v-s", "vstr", x.SS(), v)
 	case kPointer, kMap, kChan, kFunc, kUnsafePointer:
 		return tt.Sel("v-p", "vptr", "Int", v)
 	case kSlice:
